@@ -1,7 +1,7 @@
 """Per-property configuration: which binary/flavour, how many cases, gates, evidence text."""
 
 RUNNER_TUS = {
-    'runner': ['rc_driver.cpp', 'pbt_movegen.cpp', 'pbt_position.cpp', 'pbt_moves.cpp', 'exh_tables.cpp', 'pbt_eval.cpp', 'pbt_book.cpp'],
+    'runner': ['rc_driver.cpp', 'pbt_movegen.cpp', 'pbt_position.cpp', 'pbt_moves.cpp', 'exh_tables.cpp', 'pbt_eval.cpp', 'pbt_book.cpp', 'pbt_search.cpp'],
 }
 
 ORACLE_ASSUMPTION = ('ref/refchess.h (independent mailbox rules oracle) is correct; it is validated on every run by '
@@ -221,6 +221,45 @@ PROPS['C19'] = dict(
     quick=dict(cases=150, shards=16, scale=3, gates={'c19:truncated_file': 100, 'c19:empty_file': 30, 'c19:repeated_key': 300, 'c19:zero_weight': 200,
                                                   'c19:castling_record': 100, 'c19:promotion_record': 50, 'c19:distribution_checked': 100}, min_nontrivial=500),
     thorough=dict(cases=3000, shards=16, scale=3, min_nontrivial=20000),
+)
+
+SEARCH_NOTE = ('Searches run in-process (Search::go, stdout captured) on a 4,096-entry table (guarded hook) with a harness-owned node-visit callback: '
+               'stop after exactly k visits, virtual clock = visits / rate, visit cap (cap hit = inconclusive, never a violation).')
+PROPS['C05'] = dict(
+    level='fault_enumeration',
+    technique=PBT + ' with injected faults: stop delivered after exactly k node visits, adversarial transposition-table entries; legality decided by the rules oracle',
+    level_text=('Generated sessions of 1-3 searches on a shared table/evaluator: positions (incl. quiescence-explosive many-queen positions) x limits {depth, nodes, movetime incl. 0/negative, clocks, infinite} '
+                'x searchmoves subsets x faults {stop after exactly k visits (k small = before the first iteration completes), poisoned entries at the keys of the root, children and grandchildren with arbitrary score/depth/flag/move/epoch}. '
+                'Oracle: exactly one bestmove, legal per the rules oracle and inside searchmoves; every pv replayed on the oracle.'),
+    level_note=SEARCH_NOTE + ' ' + ORACLE_ASSUMPTION,
+    rule='evaluations = searches run. Non-trivial = distinct (position, limits, fault) where a fault was exercised: stop delivered before iteration 1 completed, or a poisoned table.',
+    assumptions=[ORACLE_ASSUMPTION, 'the real 4M-entry table and wall-clock polling are replaced by the small table and the virtual clock'],
+    quick=dict(cases=70, shards=16, scale=4, gates={'c05:stop_before_first_iteration_completed': 150, 'c05:searches_with_poisoned_table': 200, 'c05:searchmoves': 150,
+                                                  'c05:time_limited': 200, 'c05:explosive_position': 100, 'c05:search_on_used_table': 300}, min_nontrivial=300),
+    thorough=dict(cases=2000, shards=16, scale=4, min_nontrivial=10000),
+)
+PROPS['C08'] = dict(
+    level='exploration',
+    technique=PBT + '; oracle = independent exhaustive AND/OR mate solver (proof of falsity required) and mate-in-one detection by the rules oracle',
+    level_text=('Generated sessions of go depth d (d=1..4 quick / 5 thorough) on a shared table: constructed mate-in-one roots, near-mates, check-heavy positions, sparse endgames (where a node can have all moves futility-pruned), '
+                'catalogue positions, and the same root searched again at another depth. (1) if the oracle finds a mate in one the bestmove must mate; (2) a final `score mate y` must be confirmed by the exhaustive solver within y moves; '
+                'only a completed exhaustive refutation is a violation (budget exceeded = undecided, counted).'),
+    level_note=SEARCH_NOTE + ' ' + ORACLE_ASSUMPTION + ' The engine counting plies instead of moves only weakens its claim and is not objected to.',
+    rule='evaluations = searches. Non-trivial = distinct searches that had a mate in one available or ended with a mate announcement.',
+    assumptions=[ORACLE_ASSUMPTION],
+    quick=dict(cases=70, shards=16, scale=4, gates={'c08:mate_in_one_available': 200, 'c08:mate_announcements': 200, 'c08:kind_sparse_endgame': 200, 'c08:announcement_confirmed': 150, 'c08:mate_in_one_high_clock': 10}, min_nontrivial=300),
+    thorough=dict(cases=3000, shards=16, scale=4, min_nontrivial=15000),
+)
+PROPS['C09'] = dict(
+    level='exploration',
+    technique=PBT + '; output-shape invariants over generated limits (depth incl. > 40, searchmoves subsets on warmed tables, virtual-clock budgets)',
+    level_text=('Generated (position, limits): ordinary positions with depth 1..4(6), instant-search positions (all children drawn by material) with depth 1..100, time/clock limits under a virtual clock, searchmoves = random subsets, '
+                'optionally after a full-width warm-up search of the same root on the same table. Oracle: info depth values are exactly 1,2,..,m with m <= d, bestmove is last and inside searchmoves, time-limited searches end within budget.'),
+    level_note=SEARCH_NOTE,
+    rule='evaluations = searches. Non-trivial = distinct cases with depth > 40, a single-legal-move root, or searchmoves.',
+    assumptions=['depth-limited searches that exceed the visit cap are counted as inconclusive'],
+    quick=dict(cases=70, shards=16, scale=4, gates={'c09:depth_above_internal_maximum': 100, 'c09:searchmoves_on_warmed_table': 80, 'c09:time_limited': 200, 'c09:single_legal_move_root': 5}, min_nontrivial=300),
+    thorough=dict(cases=2000, shards=16, scale=4, min_nontrivial=10000),
 )
 
 HOOK_COMMITS = ['2ee17ca']
